@@ -31,12 +31,15 @@ for line in sys.stdin:
         r = call_kernel(k, dict(scale=1.0, background=0.0, s=1.0))
         r0 = call_kernel(k, dict(scale=1.0, background=0.0))      # at the DEFAULT of s, which lives in the definition only
         k.release()
+        k2 = m.make_kernel([np.array([0.3]), np.array([0.4])])
+        r2d = float(call_kernel(k2, dict(scale=1.0, background=0.0, s=1.0))[0])     # 1000.3 iff the definition has its own Iqxy
+        k2.release()
         import os
         from sasmodels import generate
         src = generate.make_source(m.info)["dll"]
         tag = generate.tag_source(src)
         mk = re.search(r"VERIF_K (\d+)", src)
-        print(json.dumps([float(x) for x in r] + [m.info.id, tag, os.path.basename(m.dllpath), int(mk.group(1)) if mk else -1, float(r0[0] / r[0])])); sys.stdout.flush()
+        print(json.dumps([float(x) for x in r] + [m.info.id, tag, os.path.basename(m.dllpath), int(mk.group(1)) if mk else -1, float(r0[0] / r[0]), r2d])); sys.stdout.flush()
     elif cmd["op"] == "quit":
         break
 """
@@ -52,7 +55,13 @@ def model_text(mid, name="verif_c17"):
     return ('name = "%s"\ntitle = "C17 probe"\ndescription = "text %d"\ncategory = "shape:sphere"\n'
             'parameters = [\n    ["s", "", %d.0, [-10, 10], "", ""],\n%s]\n'
             'source = ["%s_helper.c"]\n'
-            'Iq = "return (%d.0*q + helper_value() + VERIF_H*q*q)*s;"\n' % (name, mid, 1 + mid // 20, extra, name, mid % 20))
+            'Iq = "return (%d.0*q + helper_value() + VERIF_H*q*q)*s;"\n%s' % (name, mid, 1 + mid // 20, extra, name, mid % 20,
+                                                                               'Iqxy = "return 1000.0 + qx;"\n' if has_iqxy(mid) else ""))
+
+
+def has_iqxy(mid):
+    """every fifth formula text defines a 2-D function of its own: a NAME that the texts before and after it do not have"""
+    return (mid % 20) % 5 == 0
 
 
 def c_text(cid):
@@ -183,7 +192,13 @@ def run_history(root, idx, init, ops):
                 m = r2 - r1 - 3 * h
                 c = r1 - m - h
                 names.append((str(op[1]), vals[3], vals[4], vals[5]))
-                obs.append((int(round(m)) + 20 * (int(round(vals[7])) - 1), int(round(c)), int(round(h)), int(vals[6])))
+                mid_obs = int(round(m)) + 20 * (int(round(vals[7])) - 1)
+                used_iqxy = vals[8] > 900.0
+                if used_iqxy != has_iqxy(mid_obs):
+                    # the 2-D evaluation used a function the loaded text does not define (or ignored one it defines): not
+                    # the definition in any file - reported as an impossible text id
+                    mid_obs += 100 if used_iqxy else 200
+                obs.append((mid_obs, int(round(c)), int(round(h)), int(vals[6])))
         libs = sorted(f for f in os.listdir(w.cache) if f.endswith(".so"))
         return dict(init={f: list(v) for f, v in init.items()}, ops=[list(o) for o in ops], observed=obs, libs=libs, errors=errors, plugin_name=name, names=names,
                     loaded_by="bare name via SAS_MODELPATH" if bare else "path")
@@ -302,6 +317,11 @@ def main(run):
                   ("Edit", "H", 5, 6), ("Load", 32), ("Load", 64)]))
     hist.append((dict(M=(2, 0), C=(2, 0), H=(1, 30), K=(1, 2)),
                  [("Load", 64), ("Edit", "K", 3, 3), ("Load", 64), ("Edit", "K", 4, 4), ("Load", 64)]))
+    # ... an edit that REMOVES a definition from the model file (a text with a 2-D function of its own, then one without,
+    # then the first again) and one that only changes a default back and forth, all in one process
+    hist.append((dict(M=(4, 0), C=(3, 0), H=(1, 0), K=(1, 0)),
+                 [("Load", 64), ("Edit", "M", 5, 1), ("Load", 64), ("Edit", "M", 4, 2), ("Load", 64), ("Edit", "M", 45, 3), ("Load", 64),
+                  ("Edit", "M", 6, 4), ("Load", 64), ("Edit", "M", 26, 5), ("Load", 64), ("Edit", "M", 6, 6), ("Load", 32)]))
     n = 8 if not thorough else 110
     for _ in range(n):
         hist.append(gen_history(rng, rng.randint(4, 12)))
